@@ -33,6 +33,20 @@ impl ResourcesState {
         Ok(Self(state))
     }
 
+    /// Takes over from `other` the state of every file that `resources` currently denotes.
+    pub async fn adopt(&mut self, resources: &[FilesResource], other: &Self) {
+        if other.0.is_empty() {
+            return;
+        }
+
+        for file in crate::fs::list_files_in_resources(resources).await {
+            let std_path: &std::path::Path = file.as_path().into();
+            if let Some(state) = other.0.get(std_path) {
+                self.0.insert(std_path.to_path_buf(), *state);
+            }
+        }
+    }
+
     pub async fn eq_current_state(&self, resources: &[FilesResource]) -> bool {
         let files = crate::fs::list_files_in_resources(resources).await;
 
